@@ -17,7 +17,7 @@ func init() {
 		Patterns: []string{"./pkg/upstream/cluster", "./pkg/types", "./pkg/router", "./pkg/proxy"},
 		Explanation: "(R1) every subset entry's balancer is built over exactly the hosts matching the entry's own key/values: each entry.CreateLoadBalancer(info, X) takes X = CreateSubset(hostSet, host -> HostMatches(kvs, host)) or &hostSet{allHosts: filterHosts(kvs)} for the same kvs that located the entry in the trie; HostMatches returns true only after its loop and false on any missing/unequal pair; filterHosts starts from a copy of the first value set and only intersects; " +
 			"(R2) delegation set: subsetLoadBalancer.ChooseHost/HostNum/IsExistsHosts delegate only to the entry found by findSubset(criteria) guarded by entry != nil && entry.Active(), to the full balancer guarded by 'no criteria', and to the fallback entry guarded by non-nil; findSubset returns an entry only after consuming all criteria and nil on any miss; " +
-			"(R3) fallback switch in both builders: NoFallBack -> no fallback entry, AnyEndPoint -> the full balancer, DefaultSubset -> hosts matching DefaultSubset(). The inner balancers are covered by C05. (R4) no append onto a loop-invariant slice inside a loop in the subset builders: key/value lists of sibling subsets never share a backing array. (R5) a pointer passed to a parameter that the callee retains in long-lived storage (transitively, through interface methods of the package) is allocated in the calling function, not the address of a builder field or global. (R6) pkg/proxy calls no method of MetadataMatchCriteriaImpl / api.MetadataMatchCriteria from which a store rooted at the receiver is reachable. (R1 metadata-lookup-distinguishes-missing) every lookup into an api.Metadata map in pkg/upstream/cluster is the comma-ok form and its value is used only on the presence flag's true edge.",
+			"(R3) fallback switch in both builders: NoFallBack -> no fallback entry, AnyEndPoint -> the full balancer, DefaultSubset -> hosts matching DefaultSubset(). The inner balancers are covered by C05. (R4) no append onto a loop-invariant slice inside a loop in the subset builders: key/value lists of sibling subsets never share a backing array. (R5) a pointer passed to a parameter that the callee retains in long-lived storage (transitively, through interface methods of the package) is allocated in the calling function, not the address of a builder field or global. (R6) pkg/proxy calls no method of MetadataMatchCriteriaImpl / api.MetadataMatchCriteria from which a store rooted at the receiver is reachable. (R1 metadata-lookup-distinguishes-missing) every lookup into an api.Metadata map in pkg/upstream/cluster is the comma-ok form and its value is used only on the presence flag's true edge. (R8) every non-nil value returned by the host-selection cache's get(*intsets.Sparse) is returned under the true edge of a test that reaches (*intsets.Sparse).Equals.",
 		Run: runC15,
 	})
 }
@@ -336,6 +336,8 @@ func runC15(c *Ctx) {
 	c15RetainedStorage(c, pkg)
 	c15RouteCriteriaImmutable(c)
 	c15PresentNotEmpty(c)
+	c.Rule("C15.R8", "the builder's host-selection cache answers only under a full comparison of the index sets", 1)
+	c15CacheHitExact(c)
 }
 
 // c15DistinctKeyStorage (R4): the key/value lists that identify sibling subsets must live in distinct storage.
